@@ -40,6 +40,14 @@ CLAIMED['C06'] = dict(
          '(inductive interleaving relation, unbounded).',
     note='Coq kernel; no axioms; same model as C04.',
     technique='Coq proof (state-independence lemma on status bytes + induction) + model/implementation correspondence', design='5/C06')
+CLAIMED['C03'] = dict(
+    text='Theorems over a model of checks.py and of every checked entry point (constructor/from_dict/from_str, copy with overrides, attribute '
+         'assignment and deletion, data += ...) with ARBITRARY Python values (ints, bools, floats, strings, None, opaque objects, sequences, bytes): a '
+         'constructed message is valid; any operation on a valid object keeps it valid and of the same type; a rejected operation leaves it unchanged '
+         'and raises only ValueError/TypeError/AttributeError; lifted to ALL operation histories by induction; the checks accept exactly the documented domain.',
+    note='Coq kernel; no axioms; message objects are modelled as typed values, so "the attribute set cannot change" is structural in the model and is '
+         'what the correspondence compares on the real object (vars() after every step); the three exception classes are one outcome in the correspondence, as the property allows.',
+    technique='Coq proof (case analysis per type/attribute + induction over histories) + model/implementation correspondence', design='5/C03')
 NOT_YET = {}
 ALL = ['C%02d' % i for i in range(1, 21)]
 
